@@ -90,6 +90,24 @@ func vfRunQueueSeq2(prefill int, ops []vfQOp) (string, string) {
 			}
 			ref.items = append(ref.items, op.Stz)
 			scratch.Stz = "overwritten-after-push"
+		case "push-held":
+			// an entry obtained from the queue itself (the newest one, by PeekN) is handed to Push again: a FIFO holds
+			// whatever is pushed, so it is queued a second time
+			if len(ref.items) == 0 {
+				break
+			}
+			all := q.PeekN(len(ref.items))
+			if len(all) != len(ref.items) {
+				return "peekn:wrong-elements", fmt.Sprintf("step %d peekn(len) returned %d entries, reference %d", i, len(all), len(ref.items))
+			}
+			tail, ok := all[len(all)-1].(*UnAckedStz)
+			if !ok || tail == nil {
+				return "peekn:type", fmt.Sprintf("step %d: tail is %#v", i, all[len(all)-1])
+			}
+			if err := q.Push(tail); err != nil {
+				return "push:error", fmt.Sprintf("step %d push of a held entry returned %v", i, err)
+			}
+			ref.items = append(ref.items, ref.items[len(ref.items)-1])
 		case "pop":
 			got := q.Pop()
 			if len(ref.items) == 0 {
@@ -174,7 +192,7 @@ func vfRunQueueSeq2(prefill int, ops []vfQOp) (string, string) {
 		}
 		// ... in insertion order over the whole history: an entry pushed later never carries a number that an
 		// earlier entry (queued still, or popped long ago) already had or exceeded
-		if (op.Op == "push" || op.Op == "push-reuse") && len(q.Uslice) > 0 {
+		if (op.Op == "push" || op.Op == "push-reuse" || (op.Op == "push-held" && len(before) > 0)) && len(q.Uslice) > 0 {
 			id := q.Uslice[len(q.Uslice)-1].Id
 			if id <= lastPushedId {
 				return "ids:not-increasing-in-insertion-order", fmt.Sprintf("step %d: the entry pushed now is numbered %d, an entry pushed earlier was numbered %d (queue before this push: %q)", i, id, lastPushedId, before)
@@ -218,7 +236,7 @@ func TestVf_C17(t *testing.T) {
 	}
 	n := vfkit.Pick(20000, 2000000)
 	r := vfkit.Rand(17)
-	opnames := []string{"push", "push", "push-reuse", "pop", "popn", "peek", "peekn", "empty"}
+	opnames := []string{"push", "push", "push-reuse", "push-held", "pop", "popn", "peek", "peekn", "empty"}
 	for c := 0; c < n; c++ {
 		ln := 1 + r.Intn(200)
 		if c%4 == 0 {
@@ -228,12 +246,19 @@ func TestVf_C17(t *testing.T) {
 		if r.Intn(3) == 0 {
 			cs.Prefill = r.Intn(12)
 		}
+		if c%50 == 7 {
+			cs.Prefill = 200 + r.Intn(2000) // a long backlog (a session that was not acknowledged for a while)
+		}
 		size := cs.Prefill
 		emptied, refilled, removed, peeked := false, false, false, false
 		var sig strings.Builder
 		for i := 0; i < ln; i++ {
 			op := vfQOp{Op: opnames[r.Intn(len(opnames))]}
 			switch op.Op {
+			case "push-held":
+				if size > 0 {
+					size++
+				}
 			case "push", "push-reuse":
 				op.Stz = fmt.Sprintf("s%d-%d", c, i)
 				if emptied && size == 0 {
